@@ -71,7 +71,7 @@ func c29GenEnv(r *vRand) Envelope {
 	case 0:
 		e.Key = c29Str(r, 200) + "/" + strings.Repeat("k", r.Range(100, 400)) // long keys
 	case 1, 2:
-		e.Bucket = strings.Repeat("😀", r.Range(1, 20)) // marker pushed nowhere: kfs_lfs is first
+		e.Bucket = strings.Repeat("\U0001f600", r.Range(1, 20)) // marker pushed nowhere: kfs_lfs is first
 	}
 	switch r.Intn(4) {
 	case 0:
@@ -273,7 +273,7 @@ func TestVerifC29Gen(t *testing.T) {
 			addBytes("corpus-boundary-50", append(append([]byte{'{'}, []byte(strings.Repeat(" ", pre))...), []byte(`"kfs_lfs":1}`)...))
 		}
 		addEnv("corpus-env", Envelope{Version: 1, Bucket: "b", Key: "k", SHA256: "ab"})
-		addEnv("corpus-env-unicode", Envelope{Version: 1, Bucket: "bücket-😀", Key: "k/€/ <&>\"\\", SHA256: "ab", OriginalHeaders: map[string]string{"x-ü": "v\n"}})
+		addEnv("corpus-env-unicode", Envelope{Version: 1, Bucket: "b\u00fccket-\U0001f600", Key: "k/\u20ac/\u2028<&>\"\\", SHA256: "ab", OriginalHeaders: map[string]string{"x-\u00fc": "v\n"}})
 		addEnv("corpus-env-long", Envelope{Version: -7, Bucket: "b", Key: strings.Repeat("long/", 400), Size: 1<<53 - 1, SHA256: "ab"})
 		r := vNewRand(vSeed())
 		n := vN(400, 5000)
